@@ -193,6 +193,37 @@ func TestAllocs(t *testing.T) {
 		if gen.Chance(t, 1, 4, "deep") {
 			c.Routes = append(c.Routes, rt.RouteSpec{Method: "GET", Pattern: "/{p0}/{p1}/{p2}/{p3}/{p4}/{p5}/x"}, rt.RouteSpec{Method: "GET", Pattern: "/{p0}/{p1}/{p2}/{p3}/{p4}/*{c5}"})
 		}
+		// size thresholds: a node with many children (the child search changes strategy with the fan-out), a chain of nested
+		// prefixes (tree depth), a route with many parameters
+		switch gen.U(t, 8, "shape") {
+		case 0, 1:
+			alphabet := "abcdefghijklmnopqrstuvwxyzABCDEFGHIJKLMNOPQRSTUVWXYZ0123456789-_.~!$&'()+,;=:@"
+			k := gen.Pick(t, []int{16, 31, 32, 33, 34, 49, 50, 51, 64, 78}, "fanout")
+			base := gen.Pick(t, []string{"/", "/f/", "/f/a", "fan.example.com/"}, "fanbase")
+			for i := 0; i < k; i++ {
+				tail := gen.Pick(t, []string{"", "x", "/y", "/{p1}", "/*{c1}"}, "tail")
+				c.Routes = append(c.Routes, rt.RouteSpec{Method: "GET", Pattern: base + alphabet[i:i+1] + tail})
+			}
+			if gen.Chance(t, 1, 2, "fanwild") {
+				c.Routes = append(c.Routes, rt.RouteSpec{Method: "GET", Pattern: base + "{pw}/w"}, rt.RouteSpec{Method: "GET", Pattern: base + "*{cw}"})
+			}
+			stats.Class(fmt.Sprintf("shape:fan-out-%d", k))
+		case 2:
+			d := gen.Pick(t, []int{8, 24, 25, 26, 40}, "depth")
+			for i := 1; i <= d; i++ {
+				c.Routes = append(c.Routes, rt.RouteSpec{Method: "GET", Pattern: "/n/" + strings.Repeat("z", i)})
+			}
+			c.Routes = append(c.Routes, rt.RouteSpec{Method: "GET", Pattern: "/n/" + strings.Repeat("z", d) + "/{p}/*{c}"})
+			stats.Class(fmt.Sprintf("shape:nested-prefixes-%d", d))
+		case 3:
+			np := gen.Pick(t, []int{8, 15, 16, 17, 32}, "nparams")
+			var sb strings.Builder
+			for i := 0; i < np; i++ {
+				fmt.Fprintf(&sb, "/{m%d}", i)
+			}
+			c.Routes = append(c.Routes, rt.RouteSpec{Method: "GET", Pattern: "/m" + sb.String()}, rt.RouteSpec{Method: "GET", Pattern: "/m" + sb.String() + "/"})
+			stats.Class(fmt.Sprintf("shape:many-params-%d", np))
+		}
 		for i := 0; i < 4; i++ {
 			src := gen.Pick(t, c.Routes, "src")
 			if !ref.ValidPattern(src.Pattern, 1<<16, 1<<16) {
